@@ -124,6 +124,12 @@ def names_stored(node) -> Set[str]:
 class _ExprNorm(ast.NodeTransformer):
     def visit_Call(self, node):
         self.generic_visit(node)
+        # f([x for ...]) -> f(x for ...) for consumers that only iterate
+        fname_ = node.func.attr if isinstance(node.func, ast.Attribute) else (node.func.id if isinstance(node.func, ast.Name) else "")
+        if fname_ in ("join", "any", "all", "sum", "min", "max", "sorted", "set", "frozenset", "tuple", "list", "dict", "OrderedDict", "next", "chain") \
+                and node.args and isinstance(node.args[0], ast.ListComp):
+            lc = node.args[0]
+            node.args[0] = ast.copy_location(ast.GeneratorExp(elt=lc.elt, generators=lc.generators), lc)
         # frozenset({...}) / set([...]) of constants -> a sorted set display (tables hoisted to module level)
         if isinstance(node.func, ast.Name) and node.func.id in ("set", "frozenset") and len(node.args) == 1 and not node.keywords \
                 and isinstance(node.args[0], (ast.Set, ast.List, ast.Tuple)) and node.args[0].elts and all(isinstance(e, ast.Constant) for e in node.args[0].elts):
@@ -503,6 +509,21 @@ def norm_block(stmts: list) -> list:
             cond = None
             if isinstance(b0, ast.If) and not b0.orelse and len(b0.body) == 1:
                 cond, b0 = b0.test, b0.body[0]
+            # ... if c: out.append(A) else: out.append(B)   ->   out = [A if c else B for ...]
+            if prev is not None and isinstance(prev[1], ast.List) and not prev[1].elts and cond is None and isinstance(s.body[0], ast.If) \
+                    and len(s.body[0].body) == 1 and len(s.body[0].orelse) == 1:
+                def app(st_):
+                    if isinstance(st_, ast.Expr) and isinstance(st_.value, ast.Call) and isinstance(st_.value.func, ast.Attribute) \
+                            and st_.value.func.attr == "append" and isinstance(st_.value.func.value, ast.Name) and st_.value.func.value.id == prev[0] \
+                            and len(st_.value.args) == 1:
+                        return st_.value.args[0]
+                    return None
+                ea, eb = app(s.body[0].body[0]), app(s.body[0].orelse[0])
+                if ea is not None and eb is not None:
+                    comp = ast.ListComp(elt=_ifexp(s.body[0].test, ea, eb), generators=[ast.comprehension(target=s.target, iter=s.iter, ifs=[], is_async=0)])
+                    out[-1] = ast.copy_location(ast.Assign(targets=[ast.Name(id=prev[0], ctx=ast.Store())], value=comp), out[-1])
+                    i += 1
+                    continue
             if prev is not None and isinstance(prev[1], ast.List) and not prev[1].elts and isinstance(b0, ast.Expr) and isinstance(b0.value, ast.Call) \
                     and isinstance(b0.value.func, ast.Attribute) and b0.value.func.attr == "append" and isinstance(b0.value.func.value, ast.Name) \
                     and b0.value.func.value.id == prev[0] and len(b0.value.args) == 1:
